@@ -278,12 +278,12 @@ func c08Typed(r *vlib.Rand) *c08Rec {
 	}
 	t.Sub = c08Nest(r)
 	// size classes: the stored form of most typed records is a few hundred bytes; one in
-	// four is made large (1 KiB .. 64 KiB, rarely 1 MiB) by a long string, a big byte
+	// six is made large (1 KiB .. 64 KiB, rarely 1 MiB) by a long string, a big byte
 	// slice or many-element slices / maps
-	if r.Chance(1, 4) {
+	if r.Chance(1, 6) {
 		size := r.Range(1<<10, 8<<10)
 		switch {
-		case r.Chance(1, 60):
+		case r.Chance(1, 100):
 			size = 1 << 20
 		case r.Chance(1, 6):
 			size = r.Range(8<<10, 64<<10)
